@@ -210,3 +210,470 @@ Section Sim.
       unfold history in *. simpl. econstructor; eassumption.
   Qed.
 End Sim.
+
+(* ------------------------------------------------------------------ SqliteStorage model *)
+(* PRIMARY KEY: ids are pairwise different (over all tags) *)
+Definition wf_sq (T : table) : Prop := NoDup (map row_id T).
+
+Lemma key_where r t i : key_eqb (row_tag r, row_id r) (t, i) = where_id_tag i t r.
+Proof. reflexivity. Qed.
+
+Lemma where_id_tag_true i t r : where_id_tag i t r = true <-> row_id r = i /\ row_tag r = t.
+Proof. unfold where_id_tag. rewrite andb_true_iff, N.eqb_eq, seqb_eq. tauto. Qed.
+
+Lemma sp_get_abs_cons r T k :
+  sp_get (abs_sq (r :: T)) k = if key_eqb (row_tag r, row_id r) k then Some (row_blob r) else sp_get (abs_sq T) k.
+Proof. reflexivity. Qed.
+
+Lemma sq_get_abs T t i :
+  sp_get (abs_sq T) (t, i) =
+  match filter (where_id_tag i t) T with r :: _ => Some (row_blob r) | [] => None end.
+Proof.
+  induction T as [|r T IH]; [reflexivity|].
+  rewrite sp_get_abs_cons, key_where. cbn [filter].
+  destruct (where_id_tag i t r); [reflexivity | exact IH].
+Qed.
+
+Lemma sq_max_ge T r : In r T -> (row_id r <= sq_max T)%N.
+Proof.
+  induction T as [|x T IH]; simpl; [tauto|]. intros [->|H]; [lia|]. specialize (IH H). lia.
+Qed.
+
+Lemma sq_next_fresh T : ~ In (sq_next T) (map row_id T).
+Proof.
+  intros H. apply in_map_iff in H as [r [E H]]. apply sq_max_ge in H. unfold sq_next in E. lia.
+Qed.
+
+Lemma filter_fresh_nil T i t : ~ In i (map row_id T) -> filter (where_id_tag i t) T = [].
+Proof.
+  induction T as [|r T IH]; simpl; intros H; [reflexivity|].
+  destruct (where_id_tag i t r) eqn:E.
+  - apply where_id_tag_true in E as [E _]. exfalso. apply H. auto.
+  - apply IH. tauto.
+Qed.
+
+Lemma count_le1 T i t : wf_sq T -> (length (filter (where_id_tag i t) T) <= 1)%nat.
+Proof.
+  unfold wf_sq. induction T as [|r T IH]; simpl; intros ND; [lia|].
+  inversion ND as [|? ? Hni ND']; subst.
+  destruct (where_id_tag i t r) eqn:E; [|auto].
+  apply where_id_tag_true in E as [E _]. subst i. rewrite (filter_fresh_nil _ _ _ Hni). simpl. lia.
+Qed.
+
+Lemma NoDup_map_filter {X Y} (f : X -> Y) p l : NoDup (map f l) -> NoDup (map f (filter p l)).
+Proof.
+  induction l as [|x l IH]; simpl; intros ND; [constructor|].
+  inversion ND as [|? ? Hni ND']; subst. destruct (p x); simpl; [|auto].
+  constructor; [|auto]. intros H. apply Hni. apply in_map_iff in H as [y [E H]].
+  apply filter_In in H as [H _]. rewrite <- E. apply in_map. exact H.
+Qed.
+
+(* create *)
+Lemma sq_create_ok T t b : wf_sq T ->
+  wf_sq (T ++ [(sq_next T, t, b)]) /\
+  sp_get (abs_sq T) (t, sq_next T) = None /\
+  abs_sq (T ++ [(sq_next T, t, b)]) = sp_set (t, sq_next T) b (abs_sq T).
+Proof.
+  intros WF. assert (Hn : sp_get (abs_sq T) (t, sq_next T) = None).
+  { rewrite sq_get_abs, filter_fresh_nil; [reflexivity | apply sq_next_fresh]. }
+  repeat split.
+  - unfold wf_sq. rewrite map_app. simpl. apply NoDup_app_one; [exact WF | apply sq_next_fresh].
+  - exact Hn.
+  - unfold sp_set. rewrite (dict_set_absent key_eqb _ _ _ Hn). unfold abs_sq. rewrite map_app. reflexivity.
+Qed.
+
+(* update *)
+Lemma upd_get T t b i k' :
+  sp_get (abs_sq (map (upd_row i t b) T)) k' =
+  match sp_get (abs_sq T) k' with
+  | Some b0 => Some (if key_eqb (t, i) k' then b else b0)
+  | None => None
+  end.
+Proof.
+  induction T as [|r T IH]; [reflexivity|].
+  cbn [map]. rewrite !sp_get_abs_cons. unfold upd_row at 1 2 3.
+  destruct (where_id_tag i t r) eqn:E.
+  - apply where_id_tag_true in E as [E1 E2].
+    change (row_tag (row_id r, row_tag r, b)) with (row_tag r).
+    change (row_id (row_id r, row_tag r, b)) with (row_id r).
+    change (row_blob (row_id r, row_tag r, b)) with b.
+    rewrite E1, E2. destruct (key_eqb (t, i) k'); [reflexivity | exact IH].
+  - destruct (key_eqb (row_tag r, row_id r) k') eqn:E1; [|exact IH].
+    apply key_eqb_eq in E1. subst k'.
+    destruct (key_eqb (t, i) (row_tag r, row_id r)) eqn:E2; [|reflexivity].
+    apply key_eqb_eq in E2. inversion E2; subst.
+    unfold where_id_tag in E. rewrite N.eqb_refl in E. simpl in E.
+    assert (X : str_eqb (row_tag r) (row_tag r) = true) by (apply seqb_eq; reflexivity). congruence.
+Qed.
+
+Lemma upd_ids T t b i : map row_id (map (upd_row i t b) T) = map row_id T.
+Proof.
+  rewrite map_map. apply map_ext. intros r. unfold upd_row. destruct (where_id_tag i t r); reflexivity.
+Qed.
+
+(* delete *)
+Lemma abs_sq_delete T t i :
+  abs_sq (filter (fun r => negb (where_id_tag i t r)) T) = sp_del (t, i) (abs_sq T).
+Proof.
+  unfold sp_del, dict_del. induction T as [|r T IH]; [reflexivity|].
+  cbn [filter abs_sq map]. cbn [fst]. rewrite key_where.
+  destruct (where_id_tag i t r); simpl; [exact IH | f_equal; exact IH].
+Qed.
+
+(* read_all(tag) *)
+Definition id_blob (r : srow) : N * blob := (row_id r, row_blob r).
+
+Lemma fold_set_fresh R : forall d0, NoDup (map fst d0 ++ map row_id R) ->
+  fold_left (fun d r => dict_set N.eqb (row_id r) (row_blob r) d) R d0 = d0 ++ map id_blob R.
+Proof.
+  induction R as [|r R IH]; intros d0 ND; simpl.
+  - rewrite app_nil_r. reflexivity.
+  - simpl in ND. assert (Hn : dict_get N.eqb (row_id r) d0 = None).
+    { apply (dict_get_none N.eqb N.eqb_eq). intros H. apply NoDup_remove_2 in ND. apply ND.
+      apply in_or_app. auto. }
+    rewrite (dict_set_absent N.eqb _ _ _ Hn). rewrite IH.
+    + rewrite <- app_assoc. reflexivity.
+    + rewrite map_app. simpl. rewrite <- app_assoc. exact ND.
+Qed.
+
+Lemma tag_rows_get T t i :
+  dict_get N.eqb i (map id_blob (filter (where_tag t) T)) = sp_get (abs_sq T) (t, i).
+Proof.
+  induction T as [|r T IH]; [reflexivity|].
+  rewrite sp_get_abs_cons, key_where. unfold where_id_tag. cbn [filter]. unfold where_tag at 1.
+  destruct (str_eqb (row_tag r) t); simpl.
+  - rewrite andb_true_r. destruct (N.eqb (row_id r) i); [reflexivity | exact IH].
+  - rewrite andb_false_r. exact IH.
+Qed.
+
+(* read_all() *)
+Definition wf_dd (g : ddict) : Prop := is_dict g /\ Forall (fun e => is_dict (snd e)) g.
+
+Lemma dict_set_forall {K V} eqb (P : V -> Prop) (k : K) v d :
+  Forall (fun e => P (snd e)) d -> P v -> Forall (fun e => P (snd e)) (dict_set eqb k v d).
+Proof.
+  induction d as [|[k0 v0] r IH]; simpl; intros HF Hv.
+  - constructor; [exact Hv | constructor].
+  - inversion HF; subst. destruct (eqb k0 k); constructor; auto.
+Qed.
+
+Lemma dict_get_forall {K V} eqb (P : V -> Prop) (k : K) v d :
+  Forall (fun e => P (snd e)) d -> dict_get eqb k d = Some v -> P v.
+Proof.
+  induction d as [|[k0 v0] r IH]; simpl; intros HF H; [discriminate|].
+  inversion HF; subst. destruct (eqb k0 k); [inversion H; subst; assumption | auto].
+Qed.
+
+Lemma wf_dd_put g t d : wf_dd g -> is_dict d -> wf_dd (dict_set str_eqb t d g).
+Proof.
+  intros [H1 H2] Hd. split; [apply (is_dict_set str_eqb seqb_eq); exact H1 | apply dict_set_forall; assumption].
+Qed.
+
+Lemma wf_dd_inner g t : wf_dd g -> is_dict (match dict_get str_eqb t g with Some d => d | None => [] end).
+Proof.
+  intros [_ H2]. destruct (dict_get str_eqb t g) eqn:E.
+  - apply (dict_get_forall str_eqb (fun d => is_dict d) _ _ _ H2 E).
+  - constructor.
+Qed.
+
+Lemma wf_dd_grp_add g r : wf_dd g -> wf_dd (grp_add g r).
+Proof.
+  intros H. unfold grp_add. apply wf_dd_put; [exact H|].
+  apply (is_dict_set N.eqb N.eqb_eq). apply wf_dd_inner. exact H.
+Qed.
+
+Lemma wf_dd_fold R : forall g, wf_dd g -> wf_dd (fold_left grp_add R g).
+Proof. induction R as [|r R IH]; intros g H; simpl; [exact H | apply IH, wf_dd_grp_add, H]. Qed.
+
+Lemma dd_get_put g t d t' i :
+  dd_get (dict_set str_eqb t d g) t' i = if str_eqb t t' then dict_get N.eqb i d else dd_get g t' i.
+Proof.
+  unfold dd_get. rewrite (dict_get_set str_eqb seqb_eq). destruct (str_eqb t t'); reflexivity.
+Qed.
+
+Lemma dd_get_inner g t i :
+  dict_get N.eqb i (match dict_get str_eqb t g with Some d => d | None => [] end) = dd_get g t i.
+Proof. unfold dd_get. destruct (dict_get str_eqb t g); reflexivity. Qed.
+
+Lemma dd_get_grp_add g r t i :
+  dd_get (grp_add g r) t i = if key_eqb (row_tag r, row_id r) (t, i) then Some (row_blob r) else dd_get g t i.
+Proof.
+  unfold grp_add. rewrite dd_get_put, key_where. unfold where_id_tag.
+  destruct (str_eqb (row_tag r) t) eqn:Et.
+  - rewrite andb_true_r. rewrite (dict_get_set N.eqb N.eqb_eq). apply seqb_eq in Et. subst t.
+    destruct (N.eqb (row_id r) i); [reflexivity | apply dd_get_inner].
+  - rewrite andb_false_r. reflexivity.
+Qed.
+
+Lemma fold_grp_get R : forall g,
+  (forall r, In r R -> dd_get g (row_tag r) (row_id r) = None) -> NoDup (map row_id R) ->
+  forall t i, dd_get (fold_left grp_add R g) t i =
+              match dd_get g t i with Some b => Some b | None => sp_get (abs_sq R) (t, i) end.
+Proof.
+  induction R as [|r R IH]; intros g Hg ND t i; cbn [fold_left].
+  - destruct (dd_get g t i); reflexivity.
+  - inversion ND as [|? ? Hni ND']; subst.
+    rewrite IH; [| |exact ND'].
+    + rewrite dd_get_grp_add, sp_get_abs_cons.
+      destruct (key_eqb (row_tag r, row_id r) (t, i)) eqn:E.
+      * apply key_eqb_eq in E. inversion E; subst. rewrite (Hg r); [reflexivity | left; reflexivity].
+      * reflexivity.
+    + intros r' Hr'. rewrite dd_get_grp_add.
+      destruct (key_eqb (row_tag r, row_id r) (row_tag r', row_id r')) eqn:E.
+      * apply key_eqb_eq in E. inversion E as [[E1 E2]]. exfalso. apply Hni. rewrite E2. apply in_map. exact Hr'.
+      * apply Hg. right. exact Hr'.
+Qed.
+
+Lemma wf_dd_forall g : wf_dd g -> forall t d, In (t, d) g -> is_dict d.
+Proof. intros [_ H] t d Hin. rewrite Forall_forall in H. apply (H (t, d) Hin). Qed.
+
+(* the forward simulation, one call *)
+Lemma sq_step_refines T o : wf_sq T ->
+  wf_sq (snd (sq_step T o)) /\
+  exists s', sp_ok (abs_sq T) o (unrow (fst (sq_step T o))) s' /\ sp_equiv s' (abs_sq (snd (sq_step T o))).
+Proof.
+  intros WF. destruct o as [t b|t b i|t i|t i|[t|]|]; cbn [sq_step fst snd].
+  - (* create *)
+    destruct (sq_create_ok T t b WF) as [W [Hn Ha]]. split; [exact W|].
+    exists (sp_set (t, sq_next T) b (abs_sq T)). split; [constructor; exact Hn | rewrite Ha; apply sp_equiv_refl].
+  - (* update *)
+    split; [unfold wf_sq; rewrite upd_ids; exact WF|].
+    pose proof (count_le1 T i t WF) as Hc. pose proof (sq_get_abs T t i) as Hg.
+    destruct (filter (where_id_tag i t) T) as [|r [|r2 rest]] eqn:Ef; simpl in Hc; [| |lia].
+    + exists (abs_sq T). split; [constructor; exact Hg|].
+      intros k'. rewrite upd_get. destruct (key_eqb (t, i) k') eqn:E.
+      * apply key_eqb_eq in E. subst k'. rewrite Hg. reflexivity.
+      * destruct (sp_get (abs_sq T) k'); reflexivity.
+    + exists (sp_set (t, i) b (abs_sq T)). split; [simpl; econstructor; exact Hg|].
+      intros k'. rewrite upd_get, sp_get_set. destruct (key_eqb (t, i) k') eqn:E.
+      * apply key_eqb_eq in E. subst k'. rewrite Hg. reflexivity.
+      * destruct (sp_get (abs_sq T) k'); reflexivity.
+  - (* delete *)
+    split; [apply NoDup_map_filter; exact WF|].
+    exists (sp_del (t, i) (abs_sq T)). split; [constructor | rewrite abs_sq_delete; apply sp_equiv_refl].
+  - (* read *)
+    split; [exact WF|]. exists (abs_sq T). split; [|apply sp_equiv_refl].
+    pose proof (sq_get_abs T t i) as Hg.
+    destruct (filter (where_id_tag i t) T) as [|r rest]; simpl; constructor; exact Hg.
+  - (* read_all(tag) *)
+    split; [exact WF|]. exists (abs_sq T). split; [|apply sp_equiv_refl].
+    assert (ND : NoDup (map row_id (filter (where_tag t) T))) by (apply NoDup_map_filter; exact WF).
+    rewrite fold_set_fresh by exact ND. simpl. constructor.
+    + unfold is_dict. rewrite map_map. exact ND.
+    + intros i. apply tag_rows_get.
+  - (* read_all() *)
+    split; [exact WF|]. exists (abs_sq T). split; [|apply sp_equiv_refl].
+    assert (W : wf_dd (fold_left grp_add T [])) by (apply wf_dd_fold; split; constructor).
+    simpl. constructor; [exact (proj1 W) | apply wf_dd_forall; exact W|].
+    intros t i. rewrite fold_grp_get; [reflexivity | reflexivity | exact WF].
+  - (* reopen *)
+    split; [exact WF|]. exists (abs_sq T). split; [constructor | apply sp_equiv_refl].
+Qed.
+
+Definition view_sq (_ : op) (r : res) : res := unrow r.
+
+Theorem sq_refines ops T : wf_sq T ->
+  exists s', sp_trace (abs_sq T) (history view_sq ops (fst (run_ops sq_step T ops))) s' /\
+             sp_equiv s' (abs_sq (snd (run_ops sq_step T ops))) /\ wf_sq (snd (run_ops sq_step T ops)).
+Proof.
+  intros WF.
+  apply (sim_run sq_step abs_sq wf_sq view_sq (fun _ => True)).
+  - intros c o HI _. apply sq_step_refines. exact HI.
+  - exact WF.
+  - apply Forall_forall. intros; exact I.
+  - apply sp_equiv_refl.
+Qed.
+
+(* ------------------------------------------------------------------ MockStorage model *)
+Definition cursor_above (m : mstate) : Prop :=
+  forall t i b, dd_get (m_dict m) t i = Some b -> (i < m_cursor m)%N.
+Definition inv_m (m : mstate) : Prop := wf_dd (m_dict m) /\ cursor_above m.
+Definition abs_m (m : mstate) : smap := abs_dd (m_dict m).
+
+Lemma dict_get_app {K V} eqb (k : K) (d1 d2 : list (K * V)) :
+  dict_get eqb k (d1 ++ d2) = match dict_get eqb k d1 with Some v => Some v | None => dict_get eqb k d2 end.
+Proof.
+  induction d1 as [|[k0 v0] r IH]; simpl; [reflexivity|]. destruct (eqb k0 k); [reflexivity | exact IH].
+Qed.
+
+Lemma inner_get t0 (d : list (N * blob)) t i :
+  sp_get (map (fun ib => ((t0, fst ib), snd ib)) d) (t, i) = if str_eqb t0 t then dict_get N.eqb i d else None.
+Proof.
+  unfold sp_get. induction d as [|[i0 b0] d IH]; simpl; [destruct (str_eqb t0 t); reflexivity|].
+  unfold key_eqb at 1. simpl. rewrite IH.
+  destruct (str_eqb t0 t); [rewrite andb_true_r | rewrite andb_false_r]; reflexivity.
+Qed.
+
+Lemma sp_get_app s1 s2 k : sp_get (s1 ++ s2) k = match sp_get s1 k with Some v => Some v | None => sp_get s2 k end.
+Proof. apply dict_get_app. Qed.
+
+Lemma abs_dd_cons t0 d0 g : abs_dd ((t0, d0) :: g) = map (fun ib => ((t0, fst ib), snd ib)) d0 ++ abs_dd g.
+Proof. reflexivity. Qed.
+
+Lemma dd_get_cons t0 d0 g t i : dd_get ((t0, d0) :: g) t i = if str_eqb t0 t then dict_get N.eqb i d0 else dd_get g t i.
+Proof. unfold dd_get. cbn [dict_get]. destruct (str_eqb t0 t); reflexivity. Qed.
+
+Lemma dd_get_absent g t i : ~ In t (map fst g) -> dd_get g t i = None.
+Proof. intros H. apply (dict_get_none str_eqb seqb_eq) in H. unfold dd_get. rewrite H. reflexivity. Qed.
+
+Lemma abs_dd_get g t i : is_dict g -> sp_get (abs_dd g) (t, i) = dd_get g t i.
+Proof.
+  unfold is_dict. induction g as [|[t0 d0] g IH]; intros ND; [reflexivity|].
+  inversion ND as [|? ? Hni ND']; subst.
+  rewrite abs_dd_cons, sp_get_app, inner_get, dd_get_cons, (IH ND').
+  destruct (str_eqb t0 t) eqn:E; [|reflexivity].
+  destruct (dict_get N.eqb i d0); [reflexivity|].
+  apply seqb_eq in E. subst t0. apply dd_get_absent. exact Hni.
+Qed.
+
+Lemma m_equiv_by_get s g : is_dict g -> (forall t i, sp_get s (t, i) = dd_get g t i) -> sp_equiv s (abs_dd g).
+Proof. intros Hd H [t i]. rewrite abs_dd_get by exact Hd. apply H. Qed.
+
+Lemma md_default_set t g :
+  md_default t g = match dict_get str_eqb t g with Some _ => g | None => dict_set str_eqb t [] g end.
+Proof.
+  unfold md_default. destruct (dict_get str_eqb t g) eqn:E; [reflexivity|].
+  rewrite (dict_set_absent str_eqb _ _ _ E). reflexivity.
+Qed.
+
+Lemma wf_dd_default t g : wf_dd g -> wf_dd (md_default t g).
+Proof.
+  intros W. rewrite md_default_set. destruct (dict_get str_eqb t g); [exact W|].
+  apply wf_dd_put; [exact W | constructor].
+Qed.
+
+Lemma dd_get_default t g t' i : dd_get (md_default t g) t' i = dd_get g t' i.
+Proof.
+  rewrite md_default_set. destruct (dict_get str_eqb t g) eqn:E; [reflexivity|].
+  rewrite dd_get_put. destruct (str_eqb t t') eqn:Et; [|reflexivity].
+  apply seqb_eq in Et. subst t'. unfold dd_get. rewrite E. reflexivity.
+Qed.
+
+Lemma md_inner_get t g i : dict_get N.eqb i (md_inner t g) = dd_get g t i.
+Proof. apply dd_get_inner. Qed.
+
+Lemma md_inner_dict t g : wf_dd g -> is_dict (md_inner t g).
+Proof. apply wf_dd_inner. Qed.
+
+Lemma dd_get_filter g t i : is_dict g -> dd_get (filter nonempty_inner g) t i = dd_get g t i.
+Proof.
+  unfold is_dict. induction g as [|[t0 d0] g IH]; intros ND; [reflexivity|].
+  inversion ND as [|? ? Hni ND']; subst. cbn [filter]. unfold nonempty_inner at 1. cbn [snd].
+  destruct d0 as [|x d0].
+  - rewrite (IH ND'), dd_get_cons. destruct (str_eqb t0 t) eqn:E; [|reflexivity].
+    apply seqb_eq in E. subst t0. apply dd_get_absent. exact Hni.
+  - rewrite !dd_get_cons, (IH ND'). reflexivity.
+Qed.
+
+Lemma key_eqb_pair t i t' i' : key_eqb (t, i) (t', i') = N.eqb i i' && str_eqb t t'.
+Proof. reflexivity. Qed.
+
+Lemma m_step_refines m o : inv_m m -> o <> Reopen ->
+  inv_m (snd (m_step m o)) /\
+  exists s', sp_ok (abs_m m) o (unraise o (fst (m_step m o))) s' /\ sp_equiv s' (abs_m (snd (m_step m o))).
+Proof.
+  intros [W CA] Hno. unfold abs_m.
+  assert (Wd : forall t, wf_dd (md_default t (m_dict m))) by (intros; apply wf_dd_default; exact W).
+  assert (G : forall t i, sp_get (abs_dd (m_dict m)) (t, i) = dd_get (m_dict m) t i)
+    by (intros; apply abs_dd_get, W).
+  destruct o as [t b|t b i|t i|t i|[t|]|]; [| | | | | |congruence].
+  - (* create *)
+    cbn [m_step fst snd unraise m_dict m_cursor].
+    set (g := md_default t (m_dict m)). set (c := m_cursor m).
+    assert (W' : wf_dd (dict_set str_eqb t (dict_set N.eqb c b (md_inner t g)) g)).
+    { apply wf_dd_put; [apply Wd|]. apply (is_dict_set N.eqb N.eqb_eq), md_inner_dict, Wd. }
+    assert (GG : forall t' i', dd_get (dict_set str_eqb t (dict_set N.eqb c b (md_inner t g)) g) t' i' =
+                              if key_eqb (t, c) (t', i') then Some b else dd_get (m_dict m) t' i').
+    { intros t' i'. rewrite dd_get_put, key_eqb_pair. destruct (str_eqb t t') eqn:Et.
+      - rewrite andb_true_r, (dict_get_set N.eqb N.eqb_eq), md_inner_get. unfold g. rewrite dd_get_default.
+        apply seqb_eq in Et. subst t'. reflexivity.
+      - rewrite andb_false_r. unfold g. apply dd_get_default. }
+    split; [split; [exact W'|]|].
+    + intros t' i' b'. cbn [m_dict m_cursor]. rewrite GG.
+      destruct (key_eqb (t, c) (t', i')) eqn:E.
+      * apply key_eqb_eq in E. inversion E; subst. intros _. lia.
+      * intros H. apply CA in H. fold c in H. lia.
+    + exists (sp_set (t, c) b (abs_dd (m_dict m))). split.
+      * constructor. rewrite G. destruct (dd_get (m_dict m) t c) eqn:E; [|reflexivity].
+        apply CA in E. fold c in E. lia.
+      * apply m_equiv_by_get; [exact (proj1 W')|]. intros t' i'. rewrite sp_get_set, GG, G. reflexivity.
+  - (* update *)
+    cbn [m_step]. set (g := md_default t (m_dict m)).
+    destruct (dict_get N.eqb i (md_inner t g)) as [b0|] eqn:E; cbn [fst snd unraise m_dict m_cursor];
+      rewrite md_inner_get in E; unfold g in E; rewrite dd_get_default in E.
+    + assert (W' : wf_dd (dict_set str_eqb t (dict_set N.eqb i b (md_inner t g)) g)).
+      { apply wf_dd_put; [apply Wd|]. apply (is_dict_set N.eqb N.eqb_eq), md_inner_dict, Wd. }
+      assert (GG : forall t' i', dd_get (dict_set str_eqb t (dict_set N.eqb i b (md_inner t g)) g) t' i' =
+                                if key_eqb (t, i) (t', i') then Some b else dd_get (m_dict m) t' i').
+      { intros t' i'. rewrite dd_get_put, key_eqb_pair. destruct (str_eqb t t') eqn:Et.
+        - rewrite andb_true_r, (dict_get_set N.eqb N.eqb_eq), md_inner_get. unfold g. rewrite dd_get_default.
+          apply seqb_eq in Et. subst t'. reflexivity.
+        - rewrite andb_false_r. unfold g. apply dd_get_default. }
+      split; [split; [exact W'|]|].
+      * intros t' i' b'. cbn [m_dict m_cursor]. rewrite GG.
+        destruct (key_eqb (t, i) (t', i')) eqn:E2.
+        -- apply key_eqb_eq in E2. inversion E2; subst. intros _. apply (CA _ _ _ E).
+        -- apply CA.
+      * exists (sp_set (t, i) b (abs_dd (m_dict m))). split.
+        -- econstructor. rewrite G. exact E.
+        -- apply m_equiv_by_get; [exact (proj1 W')|]. intros t' i'. rewrite sp_get_set, GG, G. reflexivity.
+    + split; [split; [apply Wd|]|].
+      * intros t' i' b'. cbn [m_dict m_cursor]. unfold g. rewrite dd_get_default. apply CA.
+      * exists (abs_dd (m_dict m)). split; [constructor; rewrite G; exact E|].
+        apply m_equiv_by_get; [exact (proj1 (Wd t))|]. intros t' i'. rewrite G. unfold g.
+        rewrite dd_get_default. reflexivity.
+  - (* delete *)
+    cbn [m_step fst snd unraise m_dict m_cursor]. set (g := md_default t (m_dict m)).
+    assert (W' : wf_dd (dict_set str_eqb t (dict_del N.eqb i (md_inner t g)) g)).
+    { apply wf_dd_put; [apply Wd|]. apply (is_dict_del N.eqb), md_inner_dict, Wd. }
+    assert (GG : forall t' i', dd_get (dict_set str_eqb t (dict_del N.eqb i (md_inner t g)) g) t' i' =
+                              if key_eqb (t, i) (t', i') then None else dd_get (m_dict m) t' i').
+    { intros t' i'. rewrite dd_get_put, key_eqb_pair. destruct (str_eqb t t') eqn:Et.
+      - rewrite andb_true_r, (dict_get_del N.eqb N.eqb_eq), md_inner_get. unfold g. rewrite dd_get_default.
+        apply seqb_eq in Et. subst t'. reflexivity.
+      - rewrite andb_false_r. unfold g. apply dd_get_default. }
+    split; [split; [exact W'|]|].
+    + intros t' i' b'. cbn [m_dict m_cursor]. rewrite GG.
+      destruct (key_eqb (t, i) (t', i')); [discriminate | apply CA].
+    + exists (sp_del (t, i) (abs_dd (m_dict m))). split; [constructor|].
+      apply m_equiv_by_get; [exact (proj1 W')|]. intros t' i'. rewrite sp_get_del, GG, G. reflexivity.
+  - (* read *)
+    cbn [m_step fst snd m_dict m_cursor]. set (g := md_default t (m_dict m)).
+    split; [split; [apply Wd|]|].
+    + intros t' i' b'. cbn [m_dict m_cursor]. unfold g. rewrite dd_get_default. apply CA.
+    + exists (abs_dd (m_dict m)). split.
+      * rewrite md_inner_get. unfold g. rewrite dd_get_default.
+        destruct (dd_get (m_dict m) t i) eqn:E; simpl; constructor; rewrite G; exact E.
+      * apply m_equiv_by_get; [exact (proj1 (Wd t))|]. intros t' i'. rewrite G. unfold g.
+        rewrite dd_get_default. reflexivity.
+  - (* read_all(tag) *)
+    cbn [m_step fst snd unraise m_dict m_cursor]. set (g := md_default t (m_dict m)).
+    split; [split; [apply Wd|]|].
+    + intros t' i' b'. cbn [m_dict m_cursor]. unfold g. rewrite dd_get_default. apply CA.
+    + exists (abs_dd (m_dict m)). split.
+      * constructor; [apply md_inner_dict, Wd|]. intros i. rewrite md_inner_get, G. unfold g. apply dd_get_default.
+      * apply m_equiv_by_get; [exact (proj1 (Wd t))|]. intros t' i'. rewrite G. unfold g.
+        rewrite dd_get_default. reflexivity.
+  - (* read_all() *)
+    cbn [m_step fst snd unraise]. split; [split; assumption|].
+    exists (abs_dd (m_dict m)). split; [|apply sp_equiv_refl].
+    destruct W as [W1 W2]. constructor.
+    + apply NoDup_map_filter. exact W1.
+    + intros t d Hin. apply filter_In in Hin as [Hin _]. rewrite Forall_forall in W2. apply (W2 (t, d) Hin).
+    + intros t i. rewrite dd_get_filter by exact W1. symmetry. apply G.
+Qed.
+
+Lemma inv_m_init : inv_m m_init.
+Proof. split; [split; constructor | intros t i b H; discriminate]. Qed.
+
+Theorem m_refines ops m : inv_m m -> Forall (fun o => o <> Reopen) ops ->
+  exists s', sp_trace (abs_m m) (history unraise ops (fst (run_ops m_step m ops))) s' /\
+             sp_equiv s' (abs_m (snd (run_ops m_step m ops))) /\ inv_m (snd (run_ops m_step m ops)).
+Proof.
+  intros HI HD.
+  apply (sim_run m_step abs_m inv_m unraise (fun o => o <> Reopen)).
+  - intros c o Hc Ho. apply m_step_refines; assumption.
+  - exact HI.
+  - exact HD.
+  - apply sp_equiv_refl.
+Qed.
